@@ -30,7 +30,8 @@ CONSTANTS Part,    \* "redact" | "expand"
           Emit,    \* TRUE: print VEC records
           Wide     \* TRUE: larger domains (thorough tier)
 
-DevNames == {"DevFailOpenCopy", "DevShallowCopy", "DevReexpand", "DevUnsetToEmpty"}
+DevNames == {"DevFailOpenCopy", "DevShallowCopy", "DevSkipRefShaped", "DevReexpand", "DevUnsetToEmpty",
+             "DevDefaultWhenEmpty"}
 ASSUME Dev \subseteq DevNames /\ Part \in {"redact", "expand"}
 
 (* ====================================================================== *)
@@ -45,6 +46,16 @@ Positions   == {"first", "middle", "last"}
 PosIndex(pos, n) == CASE pos = "first" -> 1 [] pos = "last" -> IF n >= 2 THEN n ELSE 0 [] pos = "middle" -> IF n >= 3 THEN 2 ELSE 0
 
 Classes == {"ascii", "yamlspecial", "control", "leadnl", "nonutf8", "long"}
+\* values shaped like something the configuration code itself gives a meaning to.  Whole value = one variable
+\* reference of the expansion syntax (the text a secret has when it was written as a reference, or a password
+\* that just looks like one):
+\*   "dollarname"  $NAME               "braceref"  ${NAME}          "bracedef"  ${NAME:-default}
+\*   "bracewild"   ${ + arbitrary bytes without a closing brace inside + }      "braceopen"  ${ + bytes, never closed
+\*   "regexmatch"  a whole-value match of any regular expression compiled in config.go
+\*   "constlike"   a string constant of config.go ("[REDACTED]", "auto", "*", ...) with text around it
+RefShaped   == {"dollarname", "braceref", "bracedef", "bracewild", "regexmatch"}   \* whole-value matches
+CodeClasses == RefShaped \cup {"braceopen", "constlike"}
+SecretClasses == Classes \cup CodeClasses
 \* value classes whose YAML rendering cannot be parsed back (observed on gopkg.in/yaml.v3; the harness measures the
 \* set on the real library and the check compares)
 CopyBreaking == {"leadnl"}
@@ -54,12 +65,18 @@ SecretSlots(n) == {[kind |-> k, idx |-> 0] : k \in SingleKinds} \cup
                   {[kind |-> k, idx |-> i] : k \in ListKinds, i \in 1..n}
 
 BgClasses == IF Wide THEN Classes \cup {"empty"} ELSE {"empty", "ascii", "leadnl"}
+\* (focus class, class of the other secrets, class of the other strings): all text classes against each other; the
+\* code-meaningful classes in the focus secret (and, thorough tier, in the other secrets) with a few backgrounds
+ClassCombos ==
+  {<<fc, bg, oc>> : fc \in Classes, bg \in BgClasses, oc \in Classes}
+  \cup {<<fc, bg, oc>> : fc \in CodeClasses, bg \in {"empty", "ascii"}, oc \in {"ascii", "leadnl"}}
+  \cup (IF Wide THEN {<<fc, bg, oc>> : fc \in CodeClasses, bg \in CodeClasses, oc \in {"ascii", "yamlspecial"}} ELSE {})
 RedactCases ==
-  {[focus |-> [kind |-> k, idx |-> 0], fclass |-> fc, bg |-> bg, others |-> oc, n |-> 2] :
-       k \in SingleKinds, fc \in Classes, bg \in BgClasses, oc \in Classes}
+  {[focus |-> [kind |-> k, idx |-> 0], fclass |-> cc[1], bg |-> cc[2], others |-> cc[3], n |-> 2] :
+       k \in SingleKinds, cc \in ClassCombos}
   \cup
-  UNION {{[focus |-> [kind |-> k, idx |-> PosIndex(pn[1], pn[2])], fclass |-> fc, bg |-> bg, others |-> oc, n |-> pn[2]] :
-              k \in ListKinds, fc \in Classes, bg \in BgClasses, oc \in Classes} :
+  UNION {{[focus |-> [kind |-> k, idx |-> PosIndex(pn[1], pn[2])], fclass |-> cc[1], bg |-> cc[2], others |-> cc[3],
+           n |-> pn[2]] : k \in ListKinds, cc \in ClassCombos} :
          pn \in {q \in Positions \X (1..3) : PosIndex(q[1], q[2]) > 0}}
 
 \* the abstract configuration of a case: class of every secret slot ("empty" = not populated), class of the rest
@@ -67,7 +84,12 @@ ConfigOf(c) == [secret |-> [s \in SecretSlots(c.n) |-> IF s = c.focus THEN c.fcl
 
 CopyOK(cfg) == cfg.others \notin CopyBreaking /\ \A s \in DOMAIN cfg.secret : cfg.secret[s] \notin CopyBreaking
 
-Mask(cfg) == [cfg EXCEPT !.secret = [s \in DOMAIN cfg.secret |-> IF cfg.secret[s] = "empty" THEN "empty" ELSE "masked"]]
+\* DevSkipRefShaped: values that are, as a whole, one variable reference are taken for unresolved placeholders and
+\* left as they are
+Mask(cfg) == [cfg EXCEPT !.secret = [s \in DOMAIN cfg.secret |->
+                 IF cfg.secret[s] = "empty" THEN "empty"
+                 ELSE IF "DevSkipRefShaped" \in Dev /\ cfg.secret[s] \in RefShaped THEN cfg.secret[s]
+                 ELSE "masked"]]
 IsList(s) == s.idx > 0
 
 \* result of producing the redacted rendering: what is rendered, and the original configuration afterwards
@@ -100,7 +122,6 @@ Tokens == {[k |-> "lit", name |-> "", s |-> l] : l \in Lits}
           \cup {[k |-> "ref", name |-> n, s |-> << >>] : n \in Names}
           \cup {[k |-> "bref", name |-> n, s |-> << >>] : n \in Names}
           \cup {[k |-> "bdef", name |-> n, s |-> d] : n \in Names, d \in Defaults}
-MaxToks == 3
 
 \* environment: value of a name, or unset.  Values contain references themselves.
 Unset == [set |-> FALSE, v |-> << >>]
@@ -127,15 +148,20 @@ WellSeparated(toks) == \A i \in 1..(Len(toks) - 1) : Separated(toks[i], toks[i +
 
 RECURSIVE SeqsUpTo(_, _)
 SeqsUpTo(S, n) == IF n = 0 THEN {<< >>} ELSE LET R == SeqsUpTo(S, n - 1) IN R \cup {Append(r, x) : r \in {q \in R : Len(q) = n - 1}, x \in S}
-ExpandCases == {[toks |-> t, env |-> e] : t \in {q \in SeqsUpTo(Tokens, MaxToks) : q # << >> /\ WellSeparated(q)}, e \in Envs}
+\* token identity is a matter of adjacent pairs: all sequences up to length 2 over all tokens; length 3 over all
+\* tokens in the thorough tier, over one token of each kind in the quick tier
+Tokens3 == IF Wide THEN Tokens
+           ELSE {t \in Tokens : t.name \in {"", "A"} /\ (t.k = "lit" => t.s \in {<<"x">>, <<"}">>}) /\ (t.k = "bdef" => t.s = <<"d">>)}
+TokenSeqs == SeqsUpTo(Tokens, 2) \cup {q \in SeqsUpTo(Tokens3, 3) : Len(q) = 3}
+ExpandCases == {[toks |-> t, env |-> e] : t \in {q \in TokenSeqs : q # << >> /\ WellSeparated(q)}, e \in Envs}
 
 (* ---- oracle: the property statement, token by token; a set of acceptable results ---- *)
 OracleTok(tok, env) ==
   CASE tok.k \in {"lit", "dollar"} -> {Text(tok)}
     [] tok.k \in {"ref", "bref"}   -> IF env[tok.name].set THEN {env[tok.name].v} ELSE {Text(tok)}     \* left as written
-    [] tok.k = "bdef"              -> IF ~env[tok.name].set THEN {tok.s}                                \* the default
-                                      \* set but empty with a default: the statement does not say; both accepted
-                                      ELSE IF env[tok.name].v = << >> THEN {<< >>, tok.s} ELSE {env[tok.name].v}
+    \* "an unset variable with a default takes the default"; a variable set to the empty string is SET: it is
+    \* replaced by its (empty) value like in the other two forms (the documentation only says "if not set")
+    [] tok.k = "bdef"              -> IF env[tok.name].set THEN {env[tok.name].v} ELSE {tok.s}
 RECURSIVE Oracle(_, _, _)
 Oracle(toks, env, i) ==
   IF i > Len(toks) THEN {<< >>}
@@ -158,7 +184,9 @@ Replace(match, name, env, depth) ==
   LET d == IndexDef(name, 1)
       sub(v) == IF "DevReexpand" \in Dev /\ depth > 0 THEN Expand(v, env, depth - 1) ELSE v IN
   IF d > 0
-    THEN LET e == Lookup(SubSeq(name, 1, d - 1), env) IN IF e.set THEN sub(e.v) ELSE SubSeq(name, d + 2, Len(name))
+    THEN LET e == Lookup(SubSeq(name, 1, d - 1), env) IN
+         \* DevDefaultWhenEmpty: shell ":-" semantics, an empty value counts as unset
+         IF e.set /\ ~("DevDefaultWhenEmpty" \in Dev /\ e.v = << >>) THEN sub(e.v) ELSE SubSeq(name, d + 2, Len(name))
     ELSE LET e == Lookup(name, env) IN
          IF e.set THEN sub(e.v) ELSE IF "DevUnsetToEmpty" \in Dev THEN << >> ELSE match
 \* one left-to-right pass over t
